@@ -38,6 +38,12 @@ def gen_generate_cases(ck):
         nf = ck.rng.choice([1, 2, 3, 5])
         sizes = tuple(ck.rng.choice([L - 1, L, L + 1, 1, 2 * L + 5, 100]) for _ in range(nf))
         out.append((sizes, L, False, ck.rng.choice([1, 2, 4])))
+    for _ in range(4 if quick else 40):   # files larger than any plausible read buffer, piece lengths that are not powers of two
+        L = ck.rng.choice([49152, 81920, 98304, 16384 * 7, 16384, 2 ** 20 + 16384])
+        big = ck.rng.choice([2 ** 20, 2 ** 21, 3 * 2 ** 19]) + ck.rng.choice([0, 1, 20000, L - 1, L + 1, 3 * L + 7])
+        sizes = [ck.rng.choice([1, 100, L - 1, L + 1, 70000]) for _ in range(ck.rng.choice([0, 1, 2]))]
+        sizes.insert(ck.rng.randint(0, len(sizes)), big)
+        out.append((tuple(sizes), L, False, ck.rng.choice([1, 2, 4])))
     return out
 
 
@@ -68,7 +74,7 @@ def run_generate(root, sizes, L, nested, threads):
 def run(ck, model_ok):
     ck.rule = ('(a) reader: random layouts (1..40 files incl. more than the handle cap, runs of 1-byte files, zero-length files, nested dirs, '
                'L in 1..16) read by the real iter_pieces() on intact content, compared with the chunks of the concatenation and with the model; '
-               '(b) Torrent.generate(threads=1..8) on real trees (small L and real 16/32/48 KiB piece lengths) compared with '
+               '(b) Torrent.generate(threads=1..8) on real trees (small L, real 16/32/48 KiB piece lengths, and files of 1..2.5 MiB with piece lengths that are not powers of two) compared with '
                'sha1 of consecutive chunks, count = ceil(size/L); non-trivial = distinct (layout, L[, threads]) with >= 2 pieces')
     m = Model()
     pend = []
